@@ -494,3 +494,25 @@ def name_main_after_iface(case, rng, which=None):
     case["main"] = nm
     case.pop("fsmodel", None)
     return case
+
+
+def big_iface_case(rng, cid="big", grouped=False):
+    """interfaces with 20-40 members (constants, errors and methods interleaved, or grouped by
+    kind), a derived one on top: sizes at which container algorithms change behaviour"""
+    def members(prefix, n):
+        out = []
+        for i in range(n):
+            k = rng.choice(["m", "m", "e", "c"])
+            if k == "m":
+                out.append({"k": "method", "name": f"{prefix}m{i:02d}", "optional": rng.random() < 0.15, "doc": None,
+                            "params": [{"dir": "in", "type": "uint32", "arr": None, "name": "x"}] if i % 2 else []})
+            elif k == "e":
+                out.append({"k": "error", "name": f"{prefix.upper()}E{i:02d}"})
+            else:
+                out.append({"k": "const", "type": "uint16", "name": f"{prefix.upper()}K{i:02d}", "value": str(i)})
+        if grouped:
+            out.sort(key=lambda m: {"const": 0, "error": 1, "method": 2}[m["k"]])
+        return out
+    nodes = [{"k": "interface", "name": "IBigA", "base": None, "members": members("a", rng.randint(21, 40))},
+             {"k": "interface", "name": "IBigB", "base": "IBigA", "members": members("b", rng.randint(21, 30))}]
+    return {"id": cid, "files": [{"path": "main.idl", "nodes": nodes}], "main": "main.idl", "incdirs": []}
